@@ -58,6 +58,28 @@ def specTok : Spec.VT500.Item → String
   | .dcs f i p d => s!"D:{hexNat f}:{runes i}:{intsComma (p.map Int.ofNat)}:{runes d}"
   | .apc d => s!"A:{runes d}"
 
+/-- Print token with invalid bytes marked `~xx` (for naming the invalid-byte deviation). -/
+def specTokM : Spec.VT500.Item → String
+  | .print r => if r ≥ Spec.VT500.invalidMark then s!"P:~{hexNat (Spec.VT500.unmark r)}" else s!"P:{hexNat r}"
+  | .osc p => specTok (.osc (p.map Spec.VT500.unmark))
+  | .dcs f i ps d => specTok (.dcs (Spec.VT500.unmark f) i ps (d.map Spec.VT500.unmark))
+  | .apc d => specTok (.apc (d.map Spec.VT500.unmark))
+  | .ss3 r => specTok (.ss3 (Spec.VT500.unmark r))
+  | it => specTok it
+
+/-- impl token vs marked spec token: equal, or a Print whose runes agree except that the
+    implementation may show U+FFFD where the spec has a raw invalid byte. -/
+def relTok (i s : String) : Bool :=
+  i = s.replace "~" "" ||
+  (i.startsWith "P:" && s.startsWith "P:" &&
+    let ir := ((i.drop 2).toString).splitOn "."
+    let sr := ((s.drop 2).toString).splitOn "."
+    ir.length = sr.length &&
+    (ir.zip sr).all fun (a, b) => a = b || (b.startsWith "~" && (a = (b.drop 1).toString || a = "fffd")))
+
+def relToks (i s : List String) : Bool :=
+  i.length = s.length && (i.zip s).all fun (a, b) => relTok a b
+
 /-- Merge adjacent `P:` tokens (a cluster may arrive in pieces at a read boundary). -/
 def mergePrints : List String → List String
   | a :: b :: rest =>
@@ -98,19 +120,27 @@ def verdict (bytes : List Nat) (impl : String) : String :=
   else
     let body := mergePrints ((toks.dropLast).filter (· ≠ "X"))
     if body.contains "Z" then "FAIL EOF delivered before the end" else
-    let rs := Spec.VT500.decode bytes
+    let rsM := Spec.VT500.decodeMarked bytes
+    let rs := rsM.map Spec.VT500.unmark
     let (out, flush) := Spec.VT500.run rs
     if (out ++ flush).any tooBig then "-" else
     let agrees (o f : List Spec.VT500.Item) : Bool :=
       body = mergePrints (o.map specTok) || body = mergePrints ((o ++ f).map specTok)
     if agrees out flush then "ok" else
-    -- name the failure if it is exactly one of the known deviations of E5
-    let tag :=
-      [("st-after-empty-sos-pm-dcsignore", ({ lazyST := true } : Spec.VT500.Dev)),
-       ("st-after-c0-in-escape", { c0ClearsST := true }),
-       ("st-after-empty-sos-pm-dcsignore+st-after-c0-in-escape", { lazyST := true, c0ClearsST := true })].find? fun (_, d) =>
-        let (o, f) := Spec.VT500.runD d rs; agrees o f
-    let tagS := match tag with | some (n, _) => s!"[{n}]" | none => ""
+    -- name the failure if it is exactly a combination of the known deviations
+    let devs : List (String × Spec.VT500.Dev) :=
+      [("", {}), ("st-after-empty-string", { lazyST := true }), ("st-after-c0-in-escape", { c0ClearsST := true }),
+       ("st-after-empty-string+st-after-c0-in-escape", { lazyST := true, c0ClearsST := true })]
+    let strict := devs.find? fun (_, d) => let (o, f) := Spec.VT500.runD d rs; agrees o f
+    let tagS := match strict with
+      | some (n, _) => s!"[{n}]"
+      | none =>
+        let relaxed : Option (String × Spec.VT500.Dev) := devs.find? fun (_, d) =>
+            let (oM, fM) := Spec.VT500.runD d rsM
+            relToks body (mergePrints (oM.map specTokM)) || relToks body (mergePrints ((oM ++ fM).map specTokM))
+        match relaxed with
+        | some (n, _) => if n = "" then "[invalid-byte-as-fffd]" else s!"[{n}+invalid-byte-as-fffd]"
+        | none => ""
     let want := mergePrints (out.map specTok)
     s!"FAIL{tagS} spec requires [{" ".intercalate want}]" ++
       (if flush.isEmpty then "" else s!" (optionally + [{" ".intercalate (flush.map specTok)}])")
